@@ -190,36 +190,36 @@ var sigma = []string{"a", "1", ".", "@", "/", "-", " ", "é"}
 
 // Planted texts. The first entries are the ones kept by the reduced menus.
 var shapes = []string{
-	"a@b.cc",        // 0 plain
-	"f.o-o_1@d.e",   // 1 local part with . - _
-	"a@1a.1",        // 2 digit-edged domain containing a letter
-	"a@12.34",       // 3 purely numeric domain
-	"a@bc",          // 4 no dot: an address only when cut by the end of the text
-	"a@b.cc@d.ee",   // 5 back to back
-	"a@@b.cc",       // 6 double at
-	"a@b-c.d-e.ff",  // 7 multi-label
-	"a@b.",          // 8 dot then nothing
-	"/a@b.cc",       // 9 preceded by slash
-	"a.@b.cc",       // 10 local part ends in a dot
-	"a@1a1.b2",      // 11 digit first and last, two labels with letters
-	"é@b.cc",        // 12 multi-byte local part
-	"a@b..c",        // 13 empty label
-	"A_Z@X9.ORG",    // 14 upper case
-	"a@1.b",         // 15 digit first only
-	"a@b.1",         // 16 digit last only
-	"a@1",           // 17 one digit
-	"a@1-2.3",       // 18 digits and dash
-	".a@b.cc",       // 19 local part starts with dot
-	"a-@b.cc",       // 20 local part ends in dash
-	"a@-b.cc",       // 21 domain starts with dash
-	"a@b.-c",        // 22 second label starts with dash
-	"a@b.cc.",       // 23 trailing dot
-	"a@é.cc",        // 24 multi-byte domain
-	"@b.cc",         // 25 no local part
-	"a@",            // 26 no domain
-	"a@12.34.",      // 27 numeric with trailing dot
-	"a@b.c.dd",      // 28 three labels
-	"a@1.2a3.4",     // 29 digit-edged, letter in the middle label
+	"a@b.cc",       // 0 plain
+	"f.o-o_1@d.e",  // 1 local part with . - _
+	"a@1a.1",       // 2 digit-edged domain containing a letter
+	"a@12.34",      // 3 purely numeric domain
+	"a@bc",         // 4 no dot: an address only when cut by the end of the text
+	"a@b.cc@d.ee",  // 5 back to back
+	"a@@b.cc",      // 6 double at
+	"a@b-c.d-e.ff", // 7 multi-label
+	"a@b.",         // 8 dot then nothing
+	"/a@b.cc",      // 9 preceded by slash
+	"a.@b.cc",      // 10 local part ends in a dot
+	"a@1a1.b2",     // 11 digit first and last, two labels with letters
+	"é@b.cc",       // 12 multi-byte local part
+	"a@b..c",       // 13 empty label
+	"A_Z@X9.ORG",   // 14 upper case
+	"a@1.b",        // 15 digit first only
+	"a@b.1",        // 16 digit last only
+	"a@1",          // 17 one digit
+	"a@1-2.3",      // 18 digits and dash
+	".a@b.cc",      // 19 local part starts with dot
+	"a-@b.cc",      // 20 local part ends in dash
+	"a@-b.cc",      // 21 domain starts with dash
+	"a@b.-c",       // 22 second label starts with dash
+	"a@b.cc.",      // 23 trailing dot
+	"a@é.cc",       // 24 multi-byte domain
+	"@b.cc",        // 25 no local part
+	"a@",           // 26 no domain
+	"a@12.34.",     // 27 numeric with trailing dot
+	"a@b.c.dd",     // 28 three labels
+	"a@1.2a3.4",    // 29 digit-edged, letter in the middle label
 }
 
 var fillers = []string{
